@@ -143,7 +143,7 @@ def handleRaw (line : String) : List String :=
       let u := evs.flatMap fun e => match e with
         | .marshal m => (match eventBytes printEnv m with | .ok b => b | .error _ => [])
         | .warning _ => []
-      pr ++ [s!"U {if u.isEmpty then "-" else hexOfBytes u} {evs.length}", s!"K {if shapedB printEnv evs then 1 else 0}"] ++
+      pr ++ [s!"U {if u.isEmpty then "-" else hexOfBytes u} {evs.length}", s!"K {if shownB printEnv evs then 1 else 0}"] ++
         (eventsRows printEnv evs 0).map erowStr
     | none, _ => ["X unknown-type " ++ ty]
     | _, none => ["X bad-hex"]
